@@ -42,3 +42,25 @@ pub fn skip_text_stub(
     let pos = input.1 + nbits;
     Ok(((&input.0[pos / 8..], pos % 8), AsciiString::new()))
 }
+
+// ---- identity-encoding stubs of the pub scaling leaves (C10 wiring harnesses).  Each returns the raw
+// argument bit-cast into the f32, tagged so that the four leaves are distinguishable; the wiring harness
+// then proves with integer reasoning only that exactly sign_extend(bits(..)) reaches the right leaf and
+// that the leaf's result is stored unmodified.  The leaves themselves are verified for every raw value
+// by the c10_leaf_* harnesses.
+pub const LON_TAG: u32 = 0x0000_0000;
+pub const LAT_TAG: u32 = 0x4000_0000;
+pub const SOG_TAG: u32 = 0x2000_0000;
+pub const COG_TAG: u32 = 0x6000_0000;
+pub fn lon_id_stub(data: i32) -> Option<f32> {
+    Some(f32::from_bits((data as u32) ^ LON_TAG))
+}
+pub fn lat_id_stub(data: i32) -> Option<f32> {
+    Some(f32::from_bits((data as u32) ^ LAT_TAG))
+}
+pub fn sog_id_stub(data: u16) -> Option<f32> {
+    Some(f32::from_bits((data as u32) ^ SOG_TAG))
+}
+pub fn cog_id_stub(data: u16) -> Option<f32> {
+    Some(f32::from_bits((data as u32) ^ COG_TAG))
+}
